@@ -15,7 +15,8 @@ func (c *ShipConnection) VerifSnapshot() (state uint, timerRunning bool, timerTy
 	c.bufferMux.Lock()
 	buffered = len(c.spineBuffer)
 	c.bufferMux.Unlock()
-	readerSet = c.dataReader != nil
+	// the SPINE reader is owned by the goroutine that runs the handshake handlers: not read here
+	readerSet = false
 	return
 }
 
